@@ -57,11 +57,14 @@ def ob_times(tier):
     from vlib import api
 
     cases = [(2020, 366, 86399999), (2016, 60, 0), (2019, 1, 0), (2023, 59, 43200500), (2049, 365, 86399999)]
-    runs = [api.same_instant(*c) for c in cases]
-    stamps = api.line_stamps()
+    # files written from the pinned layout first: they do not depend on the live structs being able to build a product
+    stamps = api.pinned_leader_times()
+    if not stamps["reproduced"]:
+        stamps = api.line_stamps()
     if stamps["reproduced"]:
-        return {"verdict": "violated", "queries": len(runs) + 1, "replays": len(runs) + 1, "cex": stamps,
-                "finding_key": "C17.e2e.stamps:" + ",".join(sorted(stamps["detail"]))}
+        return {"verdict": "violated", "queries": 2, "replays": 2, "cex": stamps,
+                "finding_key": "C17.e2e.stamps:" + ",".join(sorted(stamps["detail"]))[:200]}
+    runs = [api.same_instant(*c) for c in cases]
     bad = [r for r in runs if r["reproduced"]]
     res = {"verdict": "violated" if bad else "discharged", "queries": len(runs), "replays": len(runs)}
     if bad:
